@@ -389,6 +389,8 @@ class Weaver:
             elif nm in ASSERT_MACROS:
                 txt = src[m["span"][0]:m["span"][1]].decode("utf-8")
                 ed.replace(m["span"][0], m["span"][1], rewrite_assert(txt, nm), "R1")
+            elif nm == "matches" and rewrite_matches_or_guard(src[m["span"][0]:m["span"][1]].decode("utf-8")) is not None:
+                ed.replace(m["span"][0], m["span"][1], rewrite_matches_or_guard(src[m["span"][0]:m["span"][1]].decode("utf-8")), "D5")
             elif nm in spec.get("macro_redirect", {}):
                 # R3 (macro form): `name![args]` -> `stand_in(args)`: the arguments stay the code's own text
                 txt = src[m["span"][0]:m["span"][1]].decode("utf-8")
@@ -747,6 +749,44 @@ def rewrite_assert(txt, nm):
     if nm.endswith("_ne"):
         return f"assert(({args[0]}) != ({args[1]})){semi}"
     return f"assert({args[0]}){semi}"
+
+
+def split_top(text, sep):
+    """Split `text` at top-level occurrences of the single character `sep` (not inside (), [], {}, <> is NOT tracked; `||` is skipped)."""
+    out, depth, cur, i = [], 0, "", 0
+    while i < len(text):
+        ch = text[i]
+        if ch in "([{":
+            depth += 1
+        elif ch in ")]}":
+            depth -= 1
+        if ch == sep and depth == 0 and not (i + 1 < len(text) and text[i + 1] == sep) and not (i > 0 and text[i - 1] == sep):
+            out.append(cur); cur = ""
+        else:
+            cur += ch
+        i += 1
+    out.append(cur)
+    return out
+
+
+def rewrite_matches_or_guard(txt):
+    """D5b: `matches!(E, P1 | P2 if G)` (an or-pattern with a guard: rejected by Verus) -> `(matches!(E, P1 if G) || matches!(E, P2 if G))`.
+    Rust requires every alternative to bind the same names, so the guard means the same under each. Returns None when not applicable."""
+    m = re.match(r"(?s)matches\s*!\s*\((.*)\)\s*$", txt)
+    if not m:
+        return None
+    args = split_top(m.group(1), ",")
+    if len(args) < 2:
+        return None
+    expr, rest = args[0], ",".join(args[1:]).strip().rstrip(",").strip()
+    mg = re.match(r"(?s)(.*?)\bif\b(.*)$", rest)
+    if not mg:
+        return None
+    pats, guard = mg.group(1).strip(), mg.group(2).strip()
+    alts = [a.strip() for a in split_top(pats, "|") if a.strip()]
+    if len(alts) < 2:
+        return None
+    return "(" + " || ".join(f"matches!({expr.strip()}, {a} if {guard})" for a in alts) + ")"
 
 
 def apply_patch(text, p, fired, where):
